@@ -14,6 +14,7 @@ import (
 	"fmt"
 	"os"
 	"path/filepath"
+	"os/signal"
 	"sort"
 	"strings"
 	"syscall"
@@ -185,6 +186,9 @@ func run(c string) (obs string) {
 	defer os.Chdir(old)
 	ops := strings.Split(c, ";")
 	hd := strings.Fields(ops[0])
+	if hd[0] == "efbig" { // an entry that cannot be written in full (file size limit): extraction must report an error
+		return runTooBig(base, hd)
+	}
 	var mask os.FileMode
 	fmt.Sscanf(hd[1], "%o", &mask)
 	var es []ent
@@ -238,6 +242,38 @@ func run(c string) (obs string) {
 	return "ok=" + ok + "|" + dump(base)
 }
 
+func runTooBig(base string, hd []string) string {
+	signal.Ignore(syscall.SIGXFSZ)
+	var oldLim syscall.Rlimit
+	_ = syscall.Getrlimit(syscall.RLIMIT_FSIZE, &oldLim)
+	lim := oldLim
+	lim.Cur = uint64(hx.Atoi(hd[2]))
+	size := hx.Atoi(hd[3])
+	var buf bytes.Buffer
+	body := bytes.Repeat([]byte("x"), size)
+	var err error
+	if hd[1] == "tar" {
+		w := tar.NewWriter(&buf)
+		_ = w.WriteHeader(&tar.Header{Name: "a/big", Mode: 0o644, Typeflag: tar.TypeReg, Size: int64(size)})
+		_, _ = w.Write(body)
+		_ = w.Close()
+		_ = syscall.Setrlimit(syscall.RLIMIT_FSIZE, &lim)
+		err = xtar.Extract(tar.NewReader(&buf), filepath.Join(base, "dst"))
+	} else {
+		w := zip.NewWriter(&buf)
+		f, _ := w.CreateHeader(&zip.FileHeader{Name: "a/big", Method: zip.Store})
+		_, _ = f.Write(body)
+		_ = w.Close()
+		zr, _ := zip.NewReader(bytes.NewReader(buf.Bytes()), int64(buf.Len()))
+		_ = syscall.Setrlimit(syscall.RLIMIT_FSIZE, &lim)
+		err = xzip.Extract(zr, filepath.Join(base, "dst"))
+	}
+	_ = syscall.Setrlimit(syscall.RLIMIT_FSIZE, &oldLim)
+	fi, serr := os.Stat(filepath.Join(base, "dst", "a", "big"))
+	complete := serr == nil && fi.Size() == int64(size)
+	return fmt.Sprintf("ok=%s complete=%s", hx.B2i(err == nil), hx.B2i(complete))
+}
+
 var names = []string{"a", "b", "c", "lnk", "x"}
 
 func genPath(r *hx.Rand, escapes bool) string {
@@ -272,7 +308,7 @@ func genTarget(r *hx.Rand, depth int) (bool, string) {
 		return true, []string{"outside", "outside/secret", "dst", "dst/a", "cwd", "dst/b/c", "nowhere"}[r.Intn(7)]
 	}
 	var p []string
-	for k := r.Intn(depth + 2); k > 0; k-- {
+	for k := r.Intn(depth + 1); k > 0; k-- { // never above base: that would leave the modelled world
 		p = append(p, "..")
 	}
 	p = append(p, []string{"outside", "outside/secret", "a", "b", "a/b", "x", "nowhere/deep", "dst/a", "."}[r.Intn(9)])
@@ -286,24 +322,46 @@ func gen(r *hx.Rand, n int) []string {
 		if i%3 == 2 {
 			kind = "zip"
 		}
+		if i%50 == 49 {
+			limit := []int{0, 1000, 5000, 100000}[r.Intn(4)]
+			out = append(out, fmt.Sprintf("efbig %s %d %d", kind, limit, []int{10, 3000, 70000}[r.Intn(3)]))
+			continue
+		}
 		ops := []string{fmt.Sprintf("%s %s", kind, []string{"777", "777", "755", "700"}[r.Intn(4)])}
-		for k := r.Intn(3); k > 0; k-- { // pre-existing content of the destination
+		free := append([]string(nil), names...)
+		for k := r.Intn(3); k > 0; k-- { // pre-existing content of the destination, each under its own name
+			j := r.Intn(len(free))
+			nm := free[j]
+			free = append(free[:j], free[j+1:]...)
 			switch r.Intn(3) {
 			case 0:
-				ops = append(ops, "pre d dst/"+names[r.Intn(len(names))])
+				ops = append(ops, "pre d dst/"+nm)
 			case 1:
-				ops = append(ops, "pre f dst/"+names[r.Intn(len(names))])
+				ops = append(ops, "pre f dst/"+nm)
 			default:
 				abs, t := genTarget(r, 1)
-				ops = append(ops, fmt.Sprintf("pre s dst/%s %s %s", names[r.Intn(len(names))], hx.B2i(abs), t))
+				ops = append(ops, fmt.Sprintf("pre s dst/%s %s %s", nm, hx.B2i(abs), t))
 			}
 		}
+		var fileNames []string
 		for k := r.Range(1, 6); k > 0; k-- {
 			name := genPath(r, true)
-			depth := strings.Count(strings.Trim(name, "/"), "/") + 1 // directory of the entry, counted from base
+			depth := 0 // depth below base of the directory that will hold the entry (lexically)
+			for _, cpt := range strings.Split(strings.Trim(name, "/"), "/") {
+				switch cpt {
+				case ".", "":
+				case "..":
+					if depth > 0 {
+						depth--
+					}
+				default:
+					depth++
+				}
+			}
 			switch x := r.Intn(10); {
 			case x < 4:
 				ops = append(ops, fmt.Sprintf("e r %s %s %d 0 -", name, []string{"644", "600", "755", "640"}[r.Intn(4)], 10+r.Intn(80)))
+				fileNames = append(fileNames, name)
 			case x < 6:
 				ops = append(ops, fmt.Sprintf("e d %s %s 0 0 -", name, []string{"755", "700", "750"}[r.Intn(3)]))
 			case x < 9 || kind == "zip":
@@ -311,6 +369,9 @@ func gen(r *hx.Rand, n int) []string {
 				ops = append(ops, fmt.Sprintf("e s %s 777 0 %s %s", name, hx.B2i(abs), t))
 			default:
 				t := []string{"a", "b", "a/b", "lnk", "../outside/secret", "f", "x", "/a", "../cwd/f", "lnk/secret"}[r.Intn(10)]
+				if len(fileNames) > 0 && r.Chance(2, 3) { // usually a file recorded earlier in the same archive
+					t = fileNames[r.Intn(len(fileNames))]
+				}
 				ops = append(ops, fmt.Sprintf("e l %s 644 0 0 %s", name, t))
 			}
 		}
